@@ -29,7 +29,8 @@ RULE = (
     "variables, conditionals, index notation: either restriction-free expressions wrapped at the root by (+), (-), "
     "jump, avg or products of differently restricted factors, or expressions with restrictions drawn at arbitrary "
     "depth (many of them invalid on purpose: unrestricted discontinuous terminals, nested restrictions). Each case runs "
-    "with default restrictions checked ('+') or with pure propagation (None). non-trivial = a valid program with at "
+    "with default restrictions checked ('+') or with pure propagation (None), directly or (scalar integrands) through "
+    "compute_form_data with the measures dS, dS_h, dS_v. non-trivial = a valid program with at "
     "least one restriction above a non-terminal that was accepted and compared, or an invalid program (must raise); "
     "distinct = distinct (recipe, mode)."
 )
@@ -81,7 +82,11 @@ def cases(draw, tier):
         e = term()
         if draw(st.integers(0, 2)) == 0:
             e = ["restr", e, draw(st.sampled_from(["+", "-"]))]
-    return {"world": world, "expr": e, "vars": G.vars, "style": style, "lower": draw(st.integers(0, 3)) == 0,
+    lower = draw(st.integers(0, 3)) == 0
+    # a third of the (unlowered) cases go through compute_form_data, the caller of the propagation, with one of the
+    # interior-facet measures (dS and the extruded-mesh dS_h / dS_v)
+    via = None if lower else draw(st.sampled_from([None, None, None, "dS", "dS_h", "dS_v"]))
+    return {"world": world, "expr": e, "vars": G.vars, "style": style, "lower": lower, "via": via,
             "mode": draw(st.sampled_from(["default", "default", "propagate"])), "env_seed": draw(st.integers(0, 10**6))}
 
 
@@ -226,12 +231,32 @@ def check_case(case):
     w = case["world"]
     if w["gdim"] > {"interval": 1, "triangle": 2, "tetrahedron": 3}[w["cell"]]:
         labels.append("manifold")
+    via = case.get("via")
+    if via and (e0.ufl_shape != () or e0.ufl_free_indices or case.get("lower")):
+        via = None
     try:
-        out = apply_restrictions(e, default_restrictions=default)
+        if via:
+            import ufl
+            from ufl.algorithms import compute_form_data
+            from ufl.algorithms.check_arities import ArityMismatch
+
+            try:
+                fd = compute_form_data(e0 * ufl.Measure(via, domain=b.mesh), do_apply_default_restrictions=default is not None)
+            except ArityMismatch:
+                raise Discard("pipeline:arity")
+            itgs = [i for d in fd.integral_data for i in d.integrals]
+            if len(itgs) != 1:
+                raise Discard("pipeline: integrand vanished")
+            out = itgs[0].integrand()
+            labels.append("via:" + via)
+        else:
+            out = apply_restrictions(e, default_restrictions=default)
         raised = None
-    except RecursionError:
+    except (RecursionError, Discard):
         raise
     except Exception as ex:
+        if via and "apply_restrictions" not in exc_bucket(ex):
+            raise Discard("pipeline:" + exc_bucket(ex))
         raised = ex
     if must_raise:
         if raised is None:
